@@ -1525,3 +1525,18 @@ Proof.
     exists (f, filter (fun a => has_key a (fa k)) (f_names f)). split; [reflexivity|].
     apply filter_In. split; [apply Hent; exact Hd|]. cbn. rewrite En. reflexivity.
 Qed.
+
+(* dynamic fork expansion: the new fork starts with exactly the books of the
+   fork it was cloned from - every holder, the nil holder included - and these
+   are the books its guarantees (C04) are stated against *)
+Theorem clone_keeps_holders : forall s src new files vals k,
+  get_fork src (s_forks s) = Some k -> get_fork new (s_forks s) = None -> ph k = PRun ->
+  files_ok (k_split k) files vals = true ->
+  exists k', In (new, k') (s_forks (step s (CloneFork src new files vals))) /\
+             fa k' = fa k /\ fp k' = fp k /\ init_fa k' = fa k /\ init_fp k' = fp k /\
+             files0 k' = files /\ disk k' = files.
+Proof.
+  intros s src new files vals k G1 G2 Hp Hok. cbn [step]. rewrite G1, G2, Hp, Hok.
+  exists (fresh_clone k files vals). split; [cbn; apply in_app_iff; right; left; reflexivity|].
+  repeat split.
+Qed.
